@@ -1,5 +1,6 @@
 import SamplyModel.Lemmas.ConvFinal
 import SamplyModel.Lemmas.ConvEntry
+import SamplyModel.Lemmas.ConvNoPanic
 /-!
 # C01 — perf.data import conserves samples
 
@@ -305,8 +306,8 @@ theorem C01_membership (cfg : Config) (rs : List Rec) (hr : cfg.reuse = false) (
 model carries this as `St.bad` (`wake` → `CS.stepSafe`); the driver prints `panic` when it is set, and the
 conservation theorems above are statements about `views (run cfg rs)` of a conversion that did not panic.
 `ConvSpec.samplesMonotone rs` (per thread incarnation, accepted sample times never decrease) is the hypothesis
-under which a recording without context-switch records does not panic there; every file that keeps perf's
-round contract satisfies it. Outside it the debug build panics: -/
+under which a recording without context-switch records does not panic there (`C01_no_panic` below); every file
+that keeps perf's round contract satisfies it. Outside it the debug build panics: -/
 
 /-- One sample step: with no off-CPU bookkeeping pending (`cs.state = .on t0`, the state every sampled thread
 of a recording without switch records is in), the conversion panics exactly when the sample is older than
@@ -333,6 +334,19 @@ theorem C01_backdated_sample_panics :
     samplesMonotone [.comm 100 100 "app" false 1000, .sample 100 100 2000 false 1 0x10 [],
       .sample 100 100 3000 false 1 0x10 []] = true := by
   refine ⟨by decide, by decide, by decide, by decide⟩
+
+/-- **No panic.** For default options and every record history without context-switch records / sched_switch
+samples in which, per thread incarnation (cut at EXIT / EXEC as in `accStep`), the sample timestamps never decrease
+(`ConvSpec.samplesMonotone`; true of every perf.data file that keeps perf's round contract), the conversion
+performs no failing `u64` operation of `ContextSwitchHandler` — `St.bad` stays false — for every off-CPU mode and
+every interval (0 included: without switch records the interval is never divided by). So the conservation theorems
+above describe the output of every such conversion. The excluded point is `C01_backdated_sample_panics`; the judges
+answer not-applicable on a `panic` output exactly when `samplesMonotone` is false (`panicVerdict`). Thread-object
+invariant behind it (`Lemmas/ConvNoPanic.lean`): no off-CPU stack stored, context-switch state `Unknown` before the
+first sample of the incarnation and `On(t)` after a sample at `t`. -/
+theorem C01_no_panic (cfg : Config) (rs : List Rec) (hr : cfg.reuse = false) (hcs : hasCsRec rs = false)
+    (hm : samplesMonotone rs = true) : (run cfg rs).bad = false :=
+  no_panic_run cfg rs hr hcs hm
 
 /-! ### Non-vacuity -/
 def C01_exHistory : List Rec :=
